@@ -16,7 +16,7 @@ RULE = ('case = one parse_graphic_sequence call (input as ;-string, list of ints
 ASSUMPTIONS = ['SGR group model (DESIGN 2.1); library state mapped by effect name and display-normalised',
                'colour arguments > 255 and 38/48/58 followed by a bad selector in the middle are grey']
 MIN_EVAL = 1000
-CASES = {'quick': 300, 'thorough': 6000}
+CASES = {'quick': 3000, 'thorough': 36000}
 
 EFFECT_NAME = {'BOLDNESS': M.BOLD, 'ITALICS': M.ITAL, 'UNDERLINE': M.UL, 'OVERLINE': M.OVER, 'BLINKING': M.BLINK,
                'SWAP_BG_FG': M.SWAP, 'VISIBILITY': M.VIS, 'CROSSED_OUT': M.CROSS, 'FONT_TYPE': M.FONT,
